@@ -633,7 +633,7 @@ def c13(rac, units, tier, seed):
         if pe == 0:
             by_dim.setdefault(_dims_of_name(units, nm), []).append((w, nm))
     groups = [g for g in by_dim.values() if len(g) >= 2]
-    facts = ["speed of light", "earth mass", "population world"]
+    facts = ["speed of light", "mass of earth", "mass of jupiter", "mercury orbit distance"]
 
     def si(q):
         st = single_value(rac.query(q))
@@ -687,13 +687,13 @@ def c13(rac, units, tier, seed):
         if z not in (("skip",),) and z[0] != "err" and z[0] != 0:
             rep.fail("a-a = 0", query=f"({a}) - ({a})", expected="0", actual=str(z))
     for f in facts:
-        same(rep, "fact: a*b = b*a", f"{{{f}}} * 2m", f"2m * {{{f}}}")
-        o = si(f"{{{f}}} / {{{f}}}")
+        same(rep, "fact: a*b = b*a", f"({f}) * 2m", f"2m * ({f})")
+        o = si(f"({f}) / ({f})")
         rep.ran(("fact a/a", f))
         if o[0] == "err":
             continue
         if o not in (("skip",),) and o != (F(1), (0,) * 8):
-            rep.fail("fact: a/a = 1", query=f"{{{f}}} / {{{f}}}", expected="1", actual=str(o))
+            rep.fail("fact: a/a = 1", query=f"({f}) / ({f})", expected="1", actual=str(o))
     return [rep]
 
 
@@ -1228,6 +1228,75 @@ def c05(rac, units, tier, seed):
 
 
 STANDINS["C05"] = c05
+
+
+def c18(rac, units, tier, seed):
+    import glob
+    rep = Report("C18 eval() recursion / Db::lookup (tantivy) around the proved SENTENCE|WORD arm", "shipped fact phrases (sampled quick / all thorough) alone and in sums/products of 2-3 facts: values with and without descriptions, descriptions = the looked-up phrases each paired with the value it contributes, same answers in a fresh process and after unrelated queries")
+    rnd = random.Random(seed)
+    phrases = []
+    for path in sorted(glob.glob(os.path.join(rac.repo, "db", "*.bin.gz"))):
+        a = rac.ask({"cmd": "constants", "path": path})
+        for c in a.get("constants", []):
+            toks = c.get("tokens") or []
+            if toks and all(re.fullmatch(r"[a-z]+", t) for t in toks) and not any(t in ("to", "as", "in") for t in toks):
+                phrases.append(" ".join(toks))
+    phrases = sorted(set(phrases))
+    if tier == "quick":
+        phrases = rnd.sample(phrases, min(60, len(phrases)))
+
+    def run(q, describe):
+        return rac.ask({"cmd": "query", "q": q, "describe": describe})
+
+    def val(a):
+        st = single_value(a)
+        return (st[0], st[1], tuple(map(tuple, st[2]["unit"])) if st[0] == "ok" else None)
+    alone = {}
+    for ph in phrases:
+        q = ph
+        a0, a1 = run(q, False), run(q, True)
+        rep.ran(("alone", ph), True, dict(query=q) if len(rep.samples) < 4 else None)
+        v0, v1 = val(a0), val(a1)
+        alone[ph] = v0
+        if v0 != v1:
+            rep.fail("describing changes the answer", query=q, expected=str(v0), actual=str(v1))
+        if a0.get("descriptions"):
+            rep.fail("descriptions reported although not enabled", query=q, expected="[]", actual=json.dumps(a0["descriptions"])[:200])
+        if v0[0] == "ok":
+            ds = a1.get("descriptions", [])
+            if len(ds) != 1 or ds[0]["phrase"] != ph or F(int(ds[0]["value"]["n"]), int(ds[0]["value"]["d"])) != v0[1]:
+                rep.fail("description is not exactly the looked-up phrase with the constant used", query=q, expected=f"[{ph} = {v0[1]}]", actual=json.dumps(ds, ensure_ascii=False)[:300])
+    good = [ph for ph in phrases if alone[ph][0] == "ok"]
+    for _ in range(60 if tier == "quick" else 1500):
+        k = rnd.choice([2, 2, 3])
+        phs = [rnd.choice(good) for _ in range(k)]
+        op = rnd.choice(["*", "/"])
+        q = f" {op} ".join("(" + ph + ")" for ph in phs)
+        a0, a1 = run(q, False), run(q, True)
+        rep.ran(("combo", q), True, dict(query=q) if len(rep.samples) < 8 else None)
+        if val(a0) != val(a1):
+            rep.fail("describing changes the answer", query=q, expected=str(val(a0)), actual=str(val(a1)))
+        if val(a1)[0] == "ok":
+            ds = a1.get("descriptions", [])
+            got = sorted((d["phrase"], F(int(d["value"]["n"]), int(d["value"]["d"]))) for d in ds)
+            want = sorted((ph, alone[ph][1]) for ph in phs)
+            if got != want:
+                rep.fail("descriptions are not exactly the looked-up phrases paired with the constants used", query=q, expected=str(want)[:300], actual=str(got)[:300])
+    # isolation: the same queries in a fresh process, in another order, give the same answers
+    from .rac import Rac
+    fresh = Rac(rac.repo)
+    try:
+        for ph in rnd.sample(good, min(25, len(good))):
+            q = ph
+            rep.ran(("isolation", ph), True)
+            if val(fresh.ask({"cmd": "query", "q": q, "describe": False})) != alone[ph]:
+                rep.fail("a query gives another result in isolation", query=q, expected=str(alone[ph]), actual="differs in a fresh process")
+    finally:
+        fresh.close()
+    return [rep]
+
+
+STANDINS["C18"] = c18
 
 
 def register(prop):
